@@ -266,9 +266,27 @@ class Gen:
             return {"k": "create", "table": self.rng.choice([name, "dupcols"]), "cols": dup}
         if r < 0.75:
             return {"k": "insert", "table": name, "cols": [], "rows": [[1] * (len(cols) + 1)]}   # count mismatch
-        # type mismatch in the first (only) row
-        bad = [("x" if t in ("int", "bigint", "boolean") else 1) for _, t, _ in cols]
-        return {"k": "insert", "table": name, "cols": [], "rows": [bad]}
+        if r < 0.85:
+            # type mismatch in the first (only) row
+            bad = [("x" if t in ("int", "bigint", "boolean") else 1) for _, t, _ in cols]
+            return {"k": "insert", "table": name, "cols": [], "rows": [bad]}
+        # a multi-row INSERT whose k-th row (k > 1) is invalid: since /repo a9c009f the whole statement is
+        # refused before its first row is stored (before: rows 1..k-1 stayed - the former finding F11a)
+        n = self.rng.randint(2, 5)
+        k = self.rng.randint(2, n)
+        rows = []
+        for i in range(n):
+            while True:
+                row = [self.value(t) for _, t, _ in cols]
+                if row_size(cols, cols, row) <= 340:
+                    break
+            rows.append(row)
+        ints = [i for i, c in enumerate(cols) if c[1] == "int"]
+        if ints and self.rng.random() < 0.5:
+            rows[k - 1][self.rng.choice(ints)] = 2147483648                  # INT out of range
+        else:
+            rows[k - 1] = rows[k - 1] + [1]                                  # one value too many
+        return {"k": "insert", "table": name, "cols": [], "rows": rows}
 
 
 def gen_history(rng, n, max_tables=4, p_fail=0.05, long_rows=0.0, big_insert=None):
